@@ -306,23 +306,26 @@ def main():
                     undecided.append("resource limit on obligation " + ob)
         # ---- 3. vacuity -------------------------------------------------------------------
         if prop.get("vacuity") and not verus["compile_error"]:
-            vunit = os.path.join(wd, CRATE + "_vac.rs")
-            try:
-                W._repo_cache.clear()
-                files = [f for f in prop["unit"] if f != "99_main.rs"] + [prop["vacuity"], "99_main.rs"]
-                W.weave_unit(REPO, verus_src, files, vunit, None)
-                # the vacuity unit is a different crate file name; keep module names
-                vr = run_verus(vunit, ["vacuity"], 5, seed)
-                names = {k: v for k, v in vr["breakdown"].items()}
-                vfail = [k for k, v in names.items() if not v["success"]]
-                vpass = [k for k, v in names.items() if v["success"]]
-                vac = {"functions": len(names), "failed_as_required": len(vfail), "unexpectedly_verified": vpass, "wall_s": vr["wall_s"]}
-                if vr["compile_error"] or not names:
-                    undecided.append("vacuity unit did not run")
-                elif vpass:
-                    undecided.append("VACUOUS precondition: these must-fail twins verified: " + ", ".join(vpass))
-            except (W.WeaveError, rustlex.LexError) as e:
-                undecided.append("vacuity weave: " + str(e))
+            vfiles = prop["vacuity"] if isinstance(prop["vacuity"], list) else [prop["vacuity"]]
+            vac = {"functions": 0, "failed_as_required": 0, "unexpectedly_verified": [], "wall_s": 0.0}
+            for vi, vf in enumerate(vfiles):
+                vunit = os.path.join(wd, CRATE + "_vac%d.rs" % vi)
+                try:
+                    W._repo_cache.clear()
+                    files = [f for f in prop["unit"] if f != "99_main.rs"] + [vf, "99_main.rs"]
+                    W.weave_unit(REPO, verus_src, files, vunit, None)
+                    # the vacuity unit is a different crate file name; keep module names
+                    vr = run_verus(vunit, ["vacuity"], 5, seed)
+                    names = {k: v for k, v in vr["breakdown"].items()}
+                    vfail = [k for k, v in names.items() if not v["success"]]
+                    vpass = [k for k, v in names.items() if v["success"]]
+                    vac["functions"] += len(names); vac["failed_as_required"] += len(vfail); vac["unexpectedly_verified"] += vpass; vac["wall_s"] += vr["wall_s"]
+                    if vr["compile_error"] or not names:
+                        undecided.append("vacuity unit %s did not run" % vf)
+                    elif vpass:
+                        undecided.append("VACUOUS precondition: these must-fail twins verified: " + ", ".join(vpass))
+                except (W.WeaveError, rustlex.LexError) as e:
+                    undecided.append("vacuity weave: " + str(e))
 
     # ---- 5. replay crate ------------------------------------------------------------------
     findings, fixed = load_known(pid)
